@@ -12,10 +12,11 @@
   default that breaks one of the side conditions makes that proof — and every theorem below — fail.
 
   Proved for all objects, names, texts: `prefix_match`/`full_match` (+ corollaries), `colour_roundtrip`,
-  `frame`, `refuse_pure`, `reset_default`, `null_resets`, `copy_owns`, `copy_self`, and `set_get_partial`
-  (set then get for the handlers that store one member shown as it is: numbers, characters, strings,
-  colours, line attributes, axis/line positions: 38 of the 46 handlers).  Stated only: `set_get_statement`
-  for the remaining handlers (points and their coordinates, axis intervals, graph align/clip).
+  `frame`, `refuse_pure`, `reset_default`, `null_resets`, `copy_owns`, `copy_self`, and set-then-get at the level
+  of the property's row for EVERY handler of the generated tables (`handlers_covered`): `set_get_partial` (numbers,
+  characters, strings, colours, line attributes, axis/line positions, graph align), `set_get_clip`,
+  `set_get_point`, `set_get_intervals`, `set_get_coord`.  Stated only: `set_get_statement`, the packaging of these
+  and `frame` into one equation on the whole record of listed properties (list level), for text and NULL sources.
 -/
 import MptModel.Lemmas.Layout
 
@@ -52,8 +53,24 @@ def clipOk (k : Kind) : Bool :=
       | .clip f => (affected k e.act).all (k.clipRow · f)
       | _ => true
 
+/-- the handlers that are neither plain nor the clip handler belong to rows of the matching shape: a point
+    handler to the row showing its two members, a coordinate handler (`conv 'f'` into a point member) to the
+    point row that contains the member, the intervals handler to the row with the `log` alias of its flag -/
+def restOk (k : Kind) (e : SetEntry) : Bool :=
+  match e.act with
+  | .fpoint f _ _ _ => (affected k e.act).all (k.pointRow · f)
+  | .intervals f g bit _ => (affected k e.act).all (k.logRow · f g bit) && bit != 0
+  | .conv ty f =>
+    isPlain k e.act ||
+      (ty == 'f' && (affected k e.act).all fun i =>
+        match k.gets[i]? with
+        | some r => (r.field == f || r.field + 1 == f) && k.pointRow i r.field && r.field + 1 < k.fields.length
+        | none => false)
+  | .clip _ => true
+  | a => isPlain k a
+
 def kindOk (k : Kind) : Bool :=
-  k.sets.all (entryOk k) && k.copyOwnType && k.selfGuard && k.strsDuplicated && clipOk k
+  k.sets.all (entryOk k) && k.copyOwnType && k.selfGuard && k.strsDuplicated && clipOk k && k.sets.all (restOk k)
 
 def tablesOk : Bool := kinds.all kindOk
 
@@ -74,7 +91,7 @@ theorem entry_ok (k : Kind) (hk : k ∈ kinds) (e : SetEntry) (he : e ∈ k.sets
   have := kind_ok k hk
   unfold kindOk at this
   simp only [Bool.and_eq_true] at this
-  exact List.all_eq_true.mp this.1.1.1.1 e he
+  exact List.all_eq_true.mp this.1.1.1.1.1 e he
 
 /-- members present -/
 abbrev WF (k : Kind) (o : Obj) : Prop := o.vals.length = k.fields.length
@@ -345,7 +362,7 @@ theorem clip_print_parse (k : Kind) (hk : k ∈ kinds) (nm : Str) (names : List 
   have hk' := kind_ok k hk
   unfold kindOk at hk'
   simp only [Bool.and_eq_true] at hk'
-  have hco := hk'.2
+  have hco := hk'.1.2
   unfold clipOk at hco
   simp only [hc, Bool.and_eq_true, beq_iff_eq, List.all_eq_true, List.mem_range] at hco
   obtain ⟨⟨hn, hp⟩, _⟩ := hco
@@ -372,7 +389,7 @@ theorem set_get_clip (k : Kind) (hk : k ∈ kinds) (e : SetEntry) (he : e ∈ k.
   have hk' := kind_ok k hk
   unfold kindOk at hk'
   simp only [Bool.and_eq_true] at hk'
-  have hco := hk'.2
+  have hco := hk'.1.2
   have heo := entry_ok k hk e he
   unfold entryOk at heo
   simp only [Bool.and_eq_true, List.all_eq_true, decide_eq_true_eq] at heo
@@ -406,6 +423,139 @@ example : graph.getProp (graph.setProp colors graph.defaults [99, 108, 105, 112]
     graph.getProp (graph.setProp colors graph.defaults [99, 108, 105, 112] (.text (some [54])) 1).obj [99, 108, 105, 112]
       = some ([99, 108, 105, 112], .str (some [121, 122])) := by decide
 
+theorem rest_ok (k : Kind) (hk : k ∈ kinds) (e : SetEntry) (he : e ∈ k.sets) : restOk k e = true := by
+  have := kind_ok k hk
+  unfold kindOk at this
+  simp only [Bool.and_eq_true] at this
+  exact List.all_eq_true.mp this.2 e he
+
+/-- **set then get, point properties** (text/graph `pos`, graph `scale`): an accepted text reads back as the point
+    it denotes (one number: both coordinates; two numbers; both inside the property's limits); a blank text
+    restores the default point -/
+theorem set_get_point (k : Kind) (hk : k ∈ kinds) (e : SetEntry) (he : e ∈ k.sets) (f : Nat) (lo hi : Fl) (rl : Bool)
+    (ha : e.act = .fpoint f lo hi rl) (tab : List NamedColor) (o : Obj) (hw : WF k o) (v : Str) (tok : Nat)
+    (hok : (e.act.run k tab o (.text (some v)) tok).ret.isOk = true) :
+    ∃ row g, affected k e.act = [row] ∧ k.gets[row]? = some g ∧
+      ((∃ x, x ∈ denote tab (.point lo hi) (o.get f) v ∧
+          k.getAt (e.act.run k tab o (.text (some v)) tok).obj row = some (g.name, x)) ∨
+       (blank (some v) = true ∧
+          k.getAt (e.act.run k tab o (.text (some v)) tok).obj row = some (g.name, .pt (k.dflt f).toFl (k.dflt (f + 1)).toFl))) := by
+  obtain ⟨row, hrow⟩ := one_property k hk e he
+  have hr := rest_ok k hk e he
+  have heo := entry_ok k hk e he
+  unfold entryOk at heo
+  simp only [Bool.and_eq_true, List.all_eq_true, decide_eq_true_eq] at heo
+  have hf : f + 1 < o.vals.length := by rw [hw]; apply heo.2; rw [ha]; simp [Act.touched]
+  unfold restOk at hr
+  rw [ha] at hr hok hrow ⊢
+  simp only [hrow, List.all_cons, List.all_nil, Bool.and_true] at hr
+  rcases Act.set_get_point k tab f lo hi rl o v tok hf hok with ⟨x, y, hx, h1, h2⟩ | ⟨hb, h1, h2⟩
+  · obtain ⟨g, hg, hget⟩ := Kind.getAt_point k ((Act.fpoint f lo hi rl).run k tab o (.text (some v)) tok).obj row f hr
+    refine ⟨row, g, hrow, hg, Or.inl ⟨.pt x y, hx, ?_⟩⟩
+    rw [hget, h1, h2]; rfl
+  · obtain ⟨g, hg, hget⟩ := Kind.getAt_point k ((Act.fpoint f lo hi rl).run k tab o (.text (some v)) tok).obj row f hr
+    refine ⟨row, g, hrow, hg, Or.inr ⟨hb, ?_⟩⟩
+    rw [hget, h1, h2]
+
+/-- **set then get, axis intervals**: an accepted text reads back as the count it denotes or, for the keyword, as
+    `log`; a blank text restores the default count (log mode off) -/
+theorem set_get_intervals (k : Kind) (hk : k ∈ kinds) (e : SetEntry) (he : e ∈ k.sets) (f g bit : Nat) (cn : Bool)
+    (ha : e.act = .intervals f g bit cn) (tab : List NamedColor) (o : Obj) (hw : WF k o) (v : Str) (tok : Nat)
+    (hok : (e.act.run k tab o (.text (some v)) tok).ret.isOk = true) :
+    ∃ row r, affected k e.act = [row] ∧ k.gets[row]? = some r ∧
+      ((∃ x, x ∈ denote tab .countOrLog (o.get f) v ∧
+          k.getAt (e.act.run k tab o (.text (some v)) tok).obj row = some (r.name, x)) ∨
+       (blank (some v) = true ∧ k.getAt (e.act.run k tab o (.text (some v)) tok).obj row = some (r.name, k.dflt f))) := by
+  obtain ⟨row, hrow⟩ := one_property k hk e he
+  have hr := rest_ok k hk e he
+  have heo := entry_ok k hk e he
+  unfold entryOk at heo
+  simp only [Bool.and_eq_true, List.all_eq_true, decide_eq_true_eq] at heo
+  rw [ha] at heo
+  have hn := heo.1.2
+  simp only [Act.nullOK, Bool.and_eq_true, beq_iff_eq, bne_iff_ne, ne_eq] at hn
+  obtain ⟨⟨hcl, hfg⟩, hcn⟩ := hn
+  subst hcn
+  have hf : f < o.vals.length := by rw [hw]; apply heo.2; simp [Act.touched]
+  have hg : g < o.vals.length := by rw [hw]; apply heo.2; simp [Act.touched]
+  unfold restOk at hr
+  rw [ha] at hr hok hrow ⊢
+  simp only [hrow, List.all_cons, List.all_nil, Bool.and_true, Bool.and_eq_true, bne_iff_ne, ne_eq] at hr
+  obtain ⟨r, hgr, hget⟩ := Kind.getAt_log k ((Act.intervals f g bit true).run k tab o (.text (some v)) tok).obj row f g bit hr.1
+  refine ⟨row, r, hrow, hgr, ?_⟩
+  rw [hget]
+  rcases Act.set_get_intervals k tab f g bit o v tok hf hg hfg hr.2 (Nat.and_self bit) hcl hok with hx | ⟨hb, hd⟩
+  · exact Or.inl ⟨_, hx, rfl⟩
+  · exact Or.inr ⟨hb, by rw [hd]⟩
+
+/-- **set then get, one coordinate of a point** (text `x`, `y`): an accepted text puts the number it denotes into
+    that coordinate of the point property and keeps the other one; a blank text restores that coordinate's default -/
+theorem set_get_coord (k : Kind) (hk : k ∈ kinds) (e : SetEntry) (he : e ∈ k.sets) (f : Nat)
+    (ha : e.act = .conv 'f' f) (hnp : isPlain k e.act = false)
+    (tab : List NamedColor) (o : Obj) (hw : WF k o) (v : Str) (tok : Nat)
+    (hok : (e.act.run k tab o (.text (some v)) tok).ret.isOk = true) :
+    ∃ row r, affected k e.act = [row] ∧ k.gets[row]? = some r ∧ (r.field = f ∨ r.field + 1 = f) ∧
+      ∃ px py, k.getAt (e.act.run k tab o (.text (some v)) tok).obj row = some (r.name, .pt px py) ∧
+        ((∃ x u, convScalar 'f' (skipSpaces v) = .val (.flt x) u ∧
+            (r.field = f → px = x ∧ py = (o.get (r.field + 1)).toFl) ∧
+            (r.field + 1 = f → py = x ∧ px = (o.get r.field).toFl)) ∨
+         blank (some v) = true) := by
+  obtain ⟨row, hrow⟩ := one_property k hk e he
+  have hr := rest_ok k hk e he
+  have heo := entry_ok k hk e he
+  unfold entryOk at heo
+  simp only [Bool.and_eq_true, List.all_eq_true, decide_eq_true_eq] at heo
+  have hf : f < o.vals.length := by rw [hw]; apply heo.2; rw [ha]; simp [Act.touched]
+  unfold restOk at hr
+  rw [ha] at hr hnp hok hrow ⊢
+  simp only [hnp, Bool.false_or, hrow, List.all_cons, List.all_nil, Bool.and_true, Bool.and_eq_true, beq_iff_eq] at hr
+  cases hgr : k.gets[row]? with
+  | none => simp [hgr] at hr
+  | some r =>
+    simp only [hgr, Bool.and_eq_true, Bool.or_eq_true, beq_iff_eq, decide_eq_true_eq] at hr
+    obtain ⟨_, ⟨hfld, hpr⟩, _⟩ := hr
+    obtain ⟨g', hg', hget⟩ := Kind.getAt_point k ((Act.conv 'f' f).run k tab o (.text (some v)) tok).obj row r.field hpr
+    rw [hgr] at hg'
+    cases hg'
+    refine ⟨row, r, hrow, hgr, hfld, _, _, hget, ?_⟩
+    rcases Act.set_get_coord k tab f o v tok hf hok with ⟨x, u, hs, hx⟩ | ⟨hb, _⟩
+    · left
+      refine ⟨x, u, hs, ?_, ?_⟩
+      · intro e1
+        subst e1
+        refine ⟨by rw [hx]; rfl, ?_⟩
+        exact congrArg Val.toFl (Obj.get_congr _ _ _
+          (Act.run_untouched k tab (.conv 'f' r.field) o _ tok (r.field + 1) (by simp [Act.touched])))
+      · intro e1
+        refine ⟨by rw [e1, hx]; rfl, ?_⟩
+        exact congrArg Val.toFl (Obj.get_congr _ _ _
+          (Act.run_untouched k tab (.conv 'f' f) o _ tok r.field (by simp only [Act.touched, List.mem_singleton]; omega)))
+    · exact Or.inr hb
+
+/-- **coverage**: every handler of every setter chain of the generated tables falls under one of the set-then-get
+    theorems: `set_get_partial` (plain), `set_get_clip`, `set_get_point`, `set_get_intervals`, `set_get_coord` -/
+theorem handlers_covered (k : Kind) (hk : k ∈ kinds) (e : SetEntry) (he : e ∈ k.sets) :
+    isPlain k e.act = true ∨ (∃ f, e.act = .clip f) ∨ (∃ f lo hi rl, e.act = .fpoint f lo hi rl) ∨
+    (∃ f g bit cn, e.act = .intervals f g bit cn) ∨ (∃ f, e.act = .conv 'f' f) := by
+  have hr := rest_ok k hk e he
+  unfold restOk at hr
+  cases ha : e.act with
+  | conv ty f =>
+    rw [ha] at hr
+    simp only [Bool.or_eq_true, Bool.and_eq_true, beq_iff_eq] at hr
+    rcases hr with h | ⟨h, _⟩
+    · left; rw [← ha]; rw [ha]; exact h
+    · right; right; right; right; exact ⟨f, by rw [h]⟩
+  | clip f => right; left; exact ⟨f, rfl⟩
+  | fpoint f lo hi rl => right; right; left; exact ⟨f, lo, hi, rl, rfl⟩
+  | intervals f g bit cn => right; right; right; left; exact ⟨f, g, bit, cn, rfl⟩
+  | string f => left; rw [ha] at hr; exact hr
+  | colour f r => left; rw [ha] at hr; exact hr
+  | lattr f d lo hi r => left; rw [ha] at hr; exact hr
+  | axisPos f => left; rw [ha] at hr; exact hr
+  | linePos f => left; rw [ha] at hr; exact hr
+  | align f => left; rw [ha] at hr; exact hr
+
 /-- S-level type of the property a handler sets, with the table context (point coordinates, clip names) -/
 def ptyOf (k : Kind) (a : Act) (row : Nat) : PTy :=
   match a with
@@ -423,11 +573,12 @@ def ptyOf (k : Kind) (a : Act) (row : Nat) : PTy :=
     alternatives of every `y set`). -/
 def set_get_statement : Prop :=
   ∀ (k : Kind), k ∈ kinds → ∀ (o : Obj), WF k o → ∀ (name : Str) (src : Src) (tok : Nat),
+    (∀ t x, src ≠ .typed t x) →
     (k.setProp colors o name src tok).ret.isOk = true →
     ∃ e row g, findSet k.sets name = some e ∧ affected k e.act = [row] ∧ k.gets[row]? = some g ∧
       k.dump (k.setProp colors o name src tok).obj ∈
         setOutcomes colors (k.dump o) (k.dump k.defaults) g.name (ptyOf k e.act row)
-          (match src with | .null => none | .text t => some t)
+          (match src with | .text t => some t | _ => none)
 
 /-! ### copy_owns -/
 
@@ -442,7 +593,7 @@ theorem copy_owns (k : Kind) (hk : k ∈ kinds) (o src : Obj) (base : Nat)
   have hk' := kind_ok k hk
   unfold kindOk at hk'
   simp only [Bool.and_eq_true] at hk'
-  obtain ⟨⟨⟨⟨_, hown⟩, _⟩, hdup⟩, _⟩ := hk'
+  obtain ⟨⟨⟨⟨⟨_, hown⟩, _⟩, hdup⟩, _⟩, _⟩ := hk'
   have hc : k.copy o k.name src false base = ⟨k.copyFrom src base, .ok 0⟩ := by
     unfold Kind.copy; simp [hown]
   rw [hc]
@@ -465,7 +616,7 @@ theorem copy_self (k : Kind) (hk : k ∈ kinds) (o : Obj) (base : Nat) :
   have hk' := kind_ok k hk
   unfold kindOk at hk'
   simp only [Bool.and_eq_true] at hk'
-  obtain ⟨⟨⟨⟨_, hown⟩, hself⟩, _⟩, _⟩ := hk'
+  obtain ⟨⟨⟨⟨⟨_, hown⟩, hself⟩, _⟩, _⟩, _⟩ := hk'
   unfold Kind.copy; simp [hown, hself]
 
 -- a text with value and font: the copy owns tokens 100 and 101, the source 7 and 8
